@@ -91,12 +91,20 @@ Proof.
   destruct newmap; intros H; injection H as _ <- _; cbn; repeat split.
 Qed.
 
+Lemma import_lookup_T3 retries a c r count res a' r' :
+  import_lookup retries a c r count = (res, a', r') -> T3 (a_st a) (a_st a').
+Proof.
+  unfold import_lookup. destruct (Nat.eqb _ count); [intros H; injection H as _ <- _; apply T3_refl|].
+  destruct (refresh_count retries (a_ans a) count _) as [[ok rest] newmap].
+  destruct newmap; intros H; injection H as _ <- _; cbn; repeat split.
+Qed.
+
 Lemma one_msg_T3 retries a m :
   match one_msg retries a m with COk a' => T3 (a_st a) (a_st a') | CErr s => T3 (a_st a) s end.
 Proof.
   unfold one_msg.
   repeat dm; try apply T3_refl.
-  all: repeat match goal with H : part_lookup _ _ _ _ _ _ = _ |- _ => apply part_lookup_T3 in H end.
+  all: repeat match goal with H : part_lookup _ _ _ _ _ _ = _ |- _ => apply part_lookup_T3 in H | H : import_lookup _ _ _ _ _ = _ |- _ => apply import_lookup_T3 in H end.
   all: repeat rewrite append_frame.
   all: cbn [a_st] in *.
   all: try assumption.
